@@ -274,9 +274,13 @@ class Schema(dict, metaclass=LogicalMeta):
         self.__options__ = context.declared_options  # set options
         for key, field in self.__parser__.property_fields.items():
             if context.errors:
-                # errors are collected and the instance is going to be rejected:
-                # no more of the user's getters run on it (what they raise would replace the collected report)
-                break
+                # errors are collected and the instance is going to be rejected: an output that does not parse is one more
+                # collected error, but what a getter raises on such data must not replace the collected report
+                try:
+                    self.__coerce_property__(field, context=context)
+                except Exception:  # noqa
+                    pass
+                continue
             self.__coerce_property__(field, context=context)
         context.raise_error()  # raise error if there is any (before the user's hook: it only sees data that parsed)
         self.__validate__()
